@@ -1829,6 +1829,12 @@ func verifC19Case(t *testing.T, vc *verifCtx, idx int) {
 				if tight != "base" {
 					vc.Count("routes_tight_limit", 1)
 				}
+				if q.Mode == "session" {
+					vc.Count("routes_via_payment_session", 1)
+				}
+				if q.Self == verifC19AbsentSelf {
+					vc.Count("routes_source_not_self", 1)
+				}
 				if j.payloadSize > 1200 {
 					vc.Count("routes_payload_near_limit", 1)
 				}
